@@ -61,6 +61,9 @@ def match_paren(m, i, open_='(', close=')'):
 
 def find_function_body(m, func):
     """(start, end) offsets of the outermost braces of the definition of func in masked text m."""
+    # neutralise the C++ linkage wrapper  #ifdef __cplusplus / extern "C" { / #endif ... #ifdef __cplusplus / } / #endif
+    m = re.sub(r'extern\s+"[^"]*"\s*\{', lambda mo: ' ' * len(mo.group(0)), m)
+    m = re.sub(r'(#ifdef __cplusplus\s*\n)\}', lambda mo: mo.group(1) + ' ', m)
     for mo in re.finditer(r'\b' + re.escape(func) + r'\s*\(', m):
         p = m.find('(', mo.start())
         q = match_paren(m, p)
@@ -233,6 +236,10 @@ def L(id_, file, func, keyword, nth, name, count=None):
 
 # group name -> list of rules.  A property's obligations name the groups their TU depends on.
 RULES = {
+ 'lfstack': [
+  L('lfs_pop_loop', 'include/urcu/static/lfstack.h', '___cds_lfs_pop', 'for', 1, 'lfs_pop', count=1),
+  L('lfs_push_loop', 'include/urcu/static/lfstack.h', '_cds_lfs_push', 'for', 1, 'lfs_push', count=1),
+ ],
  'x86asm': [
   {'id': 'uatomic_x86_asm', 'file': 'include/urcu/uatomic/x86.h', 'kind': 'x86asm', 'count': 32},
  ],
